@@ -1,6 +1,7 @@
 import CfrVerif.Model.Checked
 import CfrVerif.Proofs.GameWF
 import CfrVerif.Proofs.RealInst
+import CfrVerif.Proofs.NoRepeat
 /-!
 # The traversals never panic on an accepted game
 
@@ -13,21 +14,243 @@ traversals compute — for every strategy table, reach, draw oracle and sample c
 set_option linter.unusedSectionVars false
 namespace Cfr
 
+namespace NP
+
+theorem sizes_chance (g : Game ℝ) : g.sizes.chance = g.chance.length := rfl
+
+theorem sizes_player (g : Game ℝ) (one : Bool) : g.sizes.player one = (g.infos one).length := by
+  cases one <;> simp [Game.sizes, Sizes.player, Game.infos]
+
+theorem lt_of_getElem?_some {β : Type} {l : List β} {i : Nat} {x : β} (h : l[i]? = some x) :
+    i < l.length := by
+  rcases Nat.lt_or_ge i l.length with hlt | hge
+  · exact hlt
+  · rw [List.getElem?_eq_none hge] at h; cases h
+
+/-! ## vanilla -/
+
+mutual
+theorem vrecK_eq (g : Game ℝ) (c : VCtx ℝ) :
+    ∀ (n : Node ℝ) (held : List (Bool × Nat)) (pc p1 p2 : ℝ) (d : DrawSt ℝ),
+      NodeOK g n → NoRepeat held n →
+      vrecK g.sizes c held n pc p1 p2 d = some (vrec c n pc p1 p2 d)
+  | .term p, held, pc, p1, p2, d, _, _ => by simp only [vrecK, vrec]
+  | .chance i ks, held, pc, p1, p2, d, hn, hr => by
+    simp only [NodeOK] at hn
+    simp only [NoRepeat] at hr
+    obtain ⟨⟨ps, hps, -⟩, -, hks⟩ := hn
+    have hi : i < g.sizes.chance := by
+      rw [sizes_chance]; exact lt_of_getElem?_some hps
+    simp only [vrecK, vrec]
+    rw [if_pos hi]
+    cases c.sampled
+    · simp only [Bool.false_eq_true, if_false]
+      exact vrecChanceK_eq g c ks held _ pc p1 p2 d 0 hks hr
+    · simp only [if_true]
+      generalize sampleChance c.draw c.pass (c.ch.getD i []) i d = x
+      obtain ⟨k, d'⟩ := x
+      exact vrecNthK_eq g c ks held k pc p1 p2 d' hks hr
+  | .player one i ks, held, pc, p1, p2, d, hn, hr => by
+    simp only [NodeOK] at hn
+    simp only [NoRepeat] at hr
+    obtain ⟨⟨e, he, -⟩, -, hks⟩ := hn
+    have hi : i < g.sizes.player one := by
+      rw [sizes_player]; exact lt_of_getElem?_some he
+    simp only [vrecK, vrec]
+    rw [if_pos ⟨hi, hr.1⟩]
+    rw [vrecActsK_eq g c ks ((one, i) :: held) one i _ _ pc p1 p2 d 0 0 0 hks hr.2]
+theorem vrecNthK_eq (g : Game ℝ) (c : VCtx ℝ) :
+    ∀ (ks : List (Node ℝ)) (held : List (Bool × Nat)) (k : Nat) (pc p1 p2 : ℝ) (d : DrawSt ℝ),
+      NodeOKL g ks → NoRepeatL held ks →
+      vrecNthK g.sizes c held ks k pc p1 p2 d = some (vrecNth c ks k pc p1 p2 d)
+  | [], held, k, pc, p1, p2, d, _, _ => by simp only [vrecNthK, vrecNth]
+  | n :: ks, held, 0, pc, p1, p2, d, hn, hr => by
+    simp only [NodeOKL] at hn
+    simp only [NoRepeatL] at hr
+    simp only [vrecNthK, vrecNth]
+    exact vrecK_eq g c n held pc p1 p2 d hn.1 hr.1
+  | n :: ks, held, k + 1, pc, p1, p2, d, hn, hr => by
+    simp only [NodeOKL] at hn
+    simp only [NoRepeatL] at hr
+    simp only [vrecNthK, vrecNth]
+    exact vrecNthK_eq g c ks held k pc p1 p2 d hn.2 hr.2
+theorem vrecChanceK_eq (g : Game ℝ) (c : VCtx ℝ) :
+    ∀ (ks : List (Node ℝ)) (held : List (Bool × Nat)) (ps : List ℝ) (pc p1 p2 : ℝ) (d : DrawSt ℝ)
+      (acc : ℝ), NodeOKL g ks → NoRepeatL held ks →
+      vrecChanceK g.sizes c held ps ks pc p1 p2 d acc = some (vrecChance c ps ks pc p1 p2 d acc)
+  | [], held, ps, pc, p1, p2, d, acc, _, _ => by
+    cases ps <;> simp only [vrecChanceK, vrecChance]
+  | n :: ks, held, [], pc, p1, p2, d, acc, _, _ => by simp only [vrecChanceK, vrecChance]
+  | n :: ks, held, p :: ps, pc, p1, p2, d, acc, hn, hr => by
+    simp only [NodeOKL] at hn
+    simp only [NoRepeatL] at hr
+    simp only [vrecChanceK, vrecChance]
+    rw [vrecK_eq g c n held (pc * p) p1 p2 d hn.1 hr.1]
+    simp only []
+    rw [vrecChanceK_eq g c ks held ps pc p1 p2 _ _ hn.2 hr.2]
+theorem vrecActsK_eq (g : Game ℝ) (c : VCtx ℝ) :
+    ∀ (ks : List (Node ℝ)) (held : List (Bool × Nat)) (one : Bool) (i : Nat) (mult : ℝ)
+      (σ : List ℝ) (pc p1 p2 : ℝ) (d : DrawSt ℝ) (a : Nat) (eo ex : ℝ),
+      NodeOKL g ks → NoRepeatL held ks →
+      vrecActsK g.sizes c held one i mult σ ks pc p1 p2 d a eo ex
+        = some (vrecActs c one i mult σ ks pc p1 p2 d a eo ex)
+  | [], held, one, i, mult, σ, pc, p1, p2, d, a, eo, ex, _, _ => by
+    cases σ <;> simp only [vrecActsK, vrecActs]
+  | n :: ks, held, one, i, mult, [], pc, p1, p2, d, a, eo, ex, _, _ => by
+    simp only [vrecActsK, vrecActs]
+  | n :: ks, held, one, i, mult, s :: σ, pc, p1, p2, d, a, eo, ex, hn, hr => by
+    simp only [NodeOKL] at hn
+    simp only [NoRepeatL] at hr
+    cases one
+    · simp only [vrecActsK, vrecActs, Bool.false_eq_true, if_false]
+      rw [vrecK_eq g c n held pc p1 (p2 * s) d hn.1 hr.1]
+      simp only []
+      rw [vrecActsK_eq g c ks held false i mult σ pc p1 p2 _ _ _ _ hn.2 hr.2]
+    · simp only [vrecActsK, vrecActs, if_true]
+      rw [vrecK_eq g c n held pc (p1 * s) p2 d hn.1 hr.1]
+      simp only []
+      rw [vrecActsK_eq g c ks held true i mult σ pc p1 p2 _ _ _ _ hn.2 hr.2]
+end
+
+/-! ## external sampling: only the updating player's infosets are held -/
+
+mutual
+/-- no infoset of player `first` occurs twice on a root-to-leaf path -/
+def NoRepeatE (first : Bool) : List Nat → Node ℝ → Prop
+  | _, .term _ => True
+  | held, .chance _ ks => NoRepeatEL first held ks
+  | held, .player one i ks =>
+    if one = first then i ∉ held ∧ NoRepeatEL first (i :: held) ks else NoRepeatEL first held ks
+def NoRepeatEL (first : Bool) : List Nat → List (Node ℝ) → Prop
+  | _, [] => True
+  | held, k :: ks => NoRepeatE first held k ∧ NoRepeatEL first held ks
+end
+
+mutual
+theorem noRepeatE_of_noRepeat (first : Bool) :
+    ∀ (n : Node ℝ) (seen : List (Bool × Nat)) (held : List Nat),
+      (∀ j ∈ held, (first, j) ∈ seen) → NoRepeat seen n → NoRepeatE first held n
+  | .term _, _, _, _, _ => by simp only [NoRepeatE]
+  | .chance _ ks, seen, held, hh, hr => by
+    simp only [NoRepeat] at hr
+    simp only [NoRepeatE]
+    exact noRepeatEL_of_noRepeatL first ks seen held hh hr
+  | .player one i ks, seen, held, hh, hr => by
+    simp only [NoRepeat] at hr
+    simp only [NoRepeatE]
+    by_cases h : one = first
+    · rw [if_pos h]
+      subst h
+      refine ⟨fun hm => hr.1 (hh i hm), ?_⟩
+      refine noRepeatEL_of_noRepeatL one ks ((one, i) :: seen) (i :: held) ?_ hr.2
+      intro j hj
+      rcases List.mem_cons.mp hj with hj | hj
+      · subst hj; exact List.mem_cons_self
+      · exact List.mem_cons_of_mem _ (hh j hj)
+    · rw [if_neg h]
+      refine noRepeatEL_of_noRepeatL first ks ((one, i) :: seen) held ?_ hr.2
+      intro j hj
+      exact List.mem_cons_of_mem _ (hh j hj)
+theorem noRepeatEL_of_noRepeatL (first : Bool) :
+    ∀ (ks : List (Node ℝ)) (seen : List (Bool × Nat)) (held : List Nat),
+      (∀ j ∈ held, (first, j) ∈ seen) → NoRepeatL seen ks → NoRepeatEL first held ks
+  | [], _, _, _, _ => by simp only [NoRepeatEL]
+  | k :: ks, seen, held, hh, hr => by
+    simp only [NoRepeatL] at hr
+    simp only [NoRepeatEL]
+    exact ⟨noRepeatE_of_noRepeat first k seen held hh hr.1,
+      noRepeatEL_of_noRepeatL first ks seen held hh hr.2⟩
+end
+
+mutual
+theorem erecK_eq (g : Game ℝ) (c : ECtx ℝ) :
+    ∀ (n : Node ℝ) (held : List Nat) (d : DrawSt ℝ),
+      NodeOK g n → NoRepeatE c.first held n →
+      erecK g.sizes c held n d = some (erec c n d)
+  | .term p, held, d, _, _ => by simp only [erecK, erec]
+  | .chance i ks, held, d, hn, hr => by
+    simp only [NodeOK] at hn
+    simp only [NoRepeatE] at hr
+    obtain ⟨⟨ps, hps, -⟩, -, hks⟩ := hn
+    have hi : i < g.sizes.chance := by
+      rw [sizes_chance]; exact lt_of_getElem?_some hps
+    simp only [erecK, erec]
+    rw [if_pos hi]
+    generalize sampleChance c.draw c.chancePass (c.ch.getD i []) i d = x
+    obtain ⟨k, d'⟩ := x
+    exact erecNthK_eq g c ks held k d' hks hr
+  | .player one i ks, held, d, hn, hr => by
+    simp only [NodeOK] at hn
+    simp only [NoRepeatE] at hr
+    obtain ⟨⟨e, he, -⟩, -, hks⟩ := hn
+    have hi : i < g.sizes.player one := by
+      rw [sizes_player]; exact lt_of_getElem?_some he
+    simp only [erecK, erec]
+    rw [if_pos hi]
+    by_cases h : one = c.first
+    · rw [if_pos h] at hr
+      have hb : (one == c.first) = true := by simp [h]
+      simp only [hb, if_true]
+      rw [if_neg hr.1]
+      rw [erecActsK_eq g c ks (i :: held) one i _ d 0 0 hks hr.2]
+    · rw [if_neg h] at hr
+      have hb : (one == c.first) = false := by simp [h]
+      simp only [hb, Bool.false_eq_true, if_false]
+      generalize samplePlayer c.draw (if one then 1 else 2) c.playerPass (c.strat one i) i d = x
+      obtain ⟨k, d'⟩ := x
+      simp only []
+      rw [erecNthK_eq g c ks held k d' hks hr]
+theorem erecNthK_eq (g : Game ℝ) (c : ECtx ℝ) :
+    ∀ (ks : List (Node ℝ)) (held : List Nat) (k : Nat) (d : DrawSt ℝ),
+      NodeOKL g ks → NoRepeatEL c.first held ks →
+      erecNthK g.sizes c held ks k d = some (erecNth c ks k d)
+  | [], held, k, d, _, _ => by simp only [erecNthK, erecNth]
+  | n :: ks, held, 0, d, hn, hr => by
+    simp only [NodeOKL] at hn
+    simp only [NoRepeatEL] at hr
+    simp only [erecNthK, erecNth]
+    exact erecK_eq g c n held d hn.1 hr.1
+  | n :: ks, held, k + 1, d, hn, hr => by
+    simp only [NodeOKL] at hn
+    simp only [NoRepeatEL] at hr
+    simp only [erecNthK, erecNth]
+    exact erecNthK_eq g c ks held k d hn.2 hr.2
+theorem erecActsK_eq (g : Game ℝ) (c : ECtx ℝ) :
+    ∀ (ks : List (Node ℝ)) (held : List Nat) (one : Bool) (i : Nat) (σ : List ℝ) (d : DrawSt ℝ)
+      (a : Nat) (ex : ℝ), NodeOKL g ks → NoRepeatEL c.first held ks →
+      erecActsK g.sizes c held one i σ ks d a ex = some (erecActs c one i σ ks d a ex)
+  | [], held, one, i, σ, d, a, ex, _, _ => by
+    cases σ <;> simp only [erecActsK, erecActs]
+  | n :: ks, held, one, i, [], d, a, ex, _, _ => by simp only [erecActsK, erecActs]
+  | n :: ks, held, one, i, s :: σ, d, a, ex, hn, hr => by
+    simp only [NodeOKL] at hn
+    simp only [NoRepeatEL] at hr
+    simp only [erecActsK, erecActs]
+    rw [erecK_eq g c n held d hn.1 hr.1]
+    simp only []
+    rw [erecActsK_eq g c ks held one i σ _ _ _ hn.2 hr.2]
+end
+
+end NP
+
 /-- `recurse_single` (full and chance-sampled, one thread) never panics -/
 theorem vrec_never_panics (g : Game ℝ) (hg : GameWF g) (c : VCtx ℝ) (pc p1 p2 : ℝ) (d : DrawSt ℝ) :
-    vrecK g.sizes c [] g.root pc p1 p2 d = some (vrec c g.root pc p1 p2 d) := by
-  sorry
+    vrecK g.sizes c [] g.root pc p1 p2 d = some (vrec c g.root pc p1 p2 d) :=
+  NP.vrecK_eq g c g.root [] pc p1 p2 d hg.nodes (wf_no_infoset_twice_on_path g hg)
 
 /-- `recurse_regret` (external sampling, one thread) never panics -/
 theorem erec_never_panics (g : Game ℝ) (hg : GameWF g) (c : ECtx ℝ) (d : DrawSt ℝ) :
-    erecK g.sizes c [] g.root d = some (erec c g.root d) := by
-  sorry
+    erecK g.sizes c [] g.root d = some (erec c g.root d) :=
+  NP.erecK_eq g c g.root [] d hg.nodes
+    (NP.noRepeatE_of_noRepeat c.first g.root [] [] (fun _ h => absurd h List.not_mem_nil)
+      (wf_no_infoset_twice_on_path g hg))
 
 /-- the checks are not vacuous: a tree that repeats an infoset on a path makes the checked
 traversal panic ("already borrowed") although the unchecked one computes something -/
 theorem vrecK_detects_double_borrow :
     ∃ (c : VCtx ℝ), vrecK ⟨0, 1, 0⟩ c []
       (.player true 0 [.player true 0 [.term 1, .term 0], .term 0]) 1 1 1 {} = none := by
-  sorry
+  refine ⟨⟨[], false, fun _ _ => [1 / 2, 1 / 2], fun _ _ _ _ => 0, 0⟩, ?_⟩
+  simp [vrecK, vrecActsK, Sizes.player]
 
 end Cfr
